@@ -1,9 +1,9 @@
 package props
 
 import (
-	"os"
 	"fmt"
 	"go/types"
+	"os"
 	"regexp"
 	"sort"
 	"strings"
